@@ -534,8 +534,8 @@ class FixedPoint:
             return -v / (1<<self.fw)
         return self.v / (1<<self.fw)
         
-    def copy():
-        return FixedPoint(self.sw, self.iw, self.fw , self.v)
+    def copy(self):
+        return FixedPoint.fromRawValue(self.sw, self.iw, self.fw , self.v)
     
     @staticmethod
     def fromRawValue(sw, iw, fw, v):
